@@ -247,5 +247,65 @@ class PkgConfigLibraryModes(Bounded):
             shutil.rmtree(top, ignore_errors=True)
 
 
+class ConflictRanges(Bounded):
+    """A package that requires `zed` and declares a conflict with some versions of it, configured while a given
+    version of `zed` is visible to the real pkg-config: a version outside the declared conflict is accepted
+    (configure succeeds and pkg-config hands out the flags); a version inside it is refused (by configure or by
+    pkg-config)."""
+    target = 'bfg9000/builtins/pkg_config.py::finalize_pkg_config'
+    properties = ('C17',)
+    reason = 'the reading of Conflicts is the external pkg-config\'s: runtime contract with the real tool'
+    native_chunk = 1
+    SPECS = ['<1.2', '>=1.2', '!=1.1', '==1.3', '>=1.0,<1.2', '>1.0,<=1.3', '>=1.2,!=1.3']
+    VERSIONS = ['0.9', '1.1', '1.3', '1.10']
+
+    def native_inputs(self, case, alphabet, maxlen, rng, extra=0):
+        for sp in self.SPECS:
+            for v in self.VERSIONS:
+                yield {'conflicts': sp, 'zed': v, 'ranged': ',' in sp}
+
+    def native_check(self, case, raw):
+        import shutil, subprocess, tempfile
+        from pyvc.interp import REPO
+        from bfg9000.versioning import SpecifierSet, Version
+        inside = Version(raw['zed']) in SpecifierSet(raw['conflicts'])
+        top = tempfile.mkdtemp(prefix='pyvc_cfl_')
+        try:
+            src, b = top + '/src', top + '/b'
+            os.makedirs(src)
+            os.makedirs(top + '/deps')
+            with open(src + '/build.bfg', 'w') as f:
+                f.write("project('p', version='1.0')\npkg_config('r', version='1.0', requires=['zed'], conflicts=[('zed', %r)])\n"
+                        % raw['conflicts'])
+            with open(top + '/deps/zed.pc', 'w') as f:
+                f.write('Name: zed\nDescription: z\nVersion: %s\nCflags: -DZED\n' % raw['zed'])
+            os.makedirs(top + '/bin')
+            lp = top + '/bin/bfg9000'
+            with open(lp, 'w') as f:
+                f.write("#!/bin/sh\nPYTHONPATH=%s exec /venv/bin/python -c 'import sys; sys.argv[0] = \"%s\"; "
+                        "from bfg9000.driver import main; sys.exit(main())' \"$@\"\n" % (REPO, lp))
+            os.chmod(lp, 0o755)
+            env = dict(os.environ, PATH=top + '/bin:/venv/bin:' + os.environ['PATH'], PKG_CONFIG_PATH=top + '/deps')
+            env.pop('MAKEFLAGS', None)
+            r = subprocess.run([lp, 'configure-into', src, b, '--backend=make', '--no-resolve-packages'], env=env,
+                               capture_output=True, text=True, timeout=120)
+            ok = r.returncode == 0
+            flags = ''
+            if ok:
+                p = subprocess.run(['pkg-config', '--cflags', 'r'], env=dict(env, PKG_CONFIG_PATH=b + '/pkgconfig:' + top + '/deps',
+                                                                             PKG_CONFIG_DISABLE_UNINSTALLED='1'),
+                                   capture_output=True, text=True, timeout=30)
+                ok = p.returncode == 0 and '-DZED' in p.stdout
+                flags = (p.stdout + p.stderr).strip()[-200:]
+            if inside and ok:
+                return self.fail(case, raw, 'version_inside_the_declared_conflict_is_refused', got=flags)
+            if not inside and not ok:
+                return self.fail(case, raw, 'version_outside_the_declared_conflict_is_accepted',
+                                 configure=(r.stderr or '')[-200:], pkg_config=flags)
+            return True
+        finally:
+            shutil.rmtree(top, ignore_errors=True)
+
+
 def registry():
-    return [PkgConfigRun(), PkgConfigLibraryModes()]
+    return [PkgConfigRun(), PkgConfigLibraryModes(), ConflictRanges()]
